@@ -62,6 +62,24 @@ func isPrefixDecl(d ast.Decl) bool {
 	return false
 }
 
+// staticStart returns the index of the first declaration of the static code: the var block that
+// declares errNoRule (-1 if the working tree's template no longer has it). Every non-import
+// declaration in front of it is grammar-specific, whatever it is called.
+func staticStart(f *ast.File) int {
+	for i, d := range f.Decls {
+		if gd, ok := d.(*ast.GenDecl); ok && gd.Tok == token.VAR {
+			for _, s := range gd.Specs {
+				for _, n := range s.(*ast.ValueSpec).Names {
+					if n.Name == "errNoRule" {
+						return i
+					}
+				}
+			}
+		}
+	}
+	return -1
+}
+
 // cutSuffix returns the text after the last grammar-specific declaration.
 func cutSuffix(src []byte) ([]byte, error) {
 	fset := token.NewFileSet()
@@ -70,8 +88,12 @@ func cutSuffix(src []byte) ([]byte, error) {
 		return nil, err
 	}
 	end := -1
-	for _, d := range f.Decls {
-		if isPrefixDecl(d) {
+	st := staticStart(f)
+	for i, d := range f.Decls {
+		if gd, ok := d.(*ast.GenDecl); ok && gd.Tok == token.IMPORT {
+			continue
+		}
+		if isPrefixDecl(d) || (st >= 0 && i < st) {
 			if e := fset.Position(d.End()).Offset; e > end {
 				end = e
 			}
@@ -203,11 +225,15 @@ func rewrite(src []byte, pkg string) ([]byte, []string, error) {
 	var types []string
 	typeDecls := map[string]ast.Expr{}
 	var typeOrder []string
-	for _, d := range f.Decls {
-		if isPrefixDecl(d) {
+	st := staticStart(f)
+	for i, d := range f.Decls {
+		if gd, ok := d.(*ast.GenDecl); ok && gd.Tok == token.IMPORT {
+			decls = append(decls, d)
+		} else if isPrefixDecl(d) || (st >= 0 && i < st) {
 			continue
+		} else {
+			decls = append(decls, d)
 		}
-		decls = append(decls, d)
 		switch d := d.(type) {
 		case *ast.GenDecl:
 			if d.Tok == token.IMPORT {
